@@ -205,3 +205,23 @@ def take_within(lengths, budget, cost=lambda n: n):
         else:
             skipped.append(n)
     return taken, skipped
+
+
+def bytes_constants(files=None):
+    """Byte strings the source mentions (bytes literals of 2..32 bytes and module-level bytes attributes): magics, tags,
+    markers.  Data that BEGINS with one of them is data — a record whose timestamp happens to spell a magic is a record."""
+    out = []
+    for rel in (package_files() if files is None else files):
+        tree = _tree(rel)
+        if tree is None:
+            continue
+        for node in ast.walk(tree):
+            if isinstance(node, ast.Constant) and isinstance(node.value, bytes) and 2 <= len(node.value) <= 32:
+                out.append(node.value)
+        try:
+            import importlib
+            mod = importlib.import_module(_module_name(rel))
+            out += [v for v in vars(mod).values() if isinstance(v, bytes) and 2 <= len(v) <= 32]
+        except Exception:       # noqa: BLE001
+            pass
+    return list(dict.fromkeys(out))
